@@ -17,3 +17,625 @@ Example C15_ring_example :
   snd (run (new_ring 4) [Write 1; Write 2; Write 3; ReadMulti 3; Write 4; Write 5; ReadMulti 1; ReadAll; Len])
   = [OUnit; OUnit; OUnit; OMulti false [1; 2; 3]; OUnit; OUnit; OMulti false [4]; OList [5]; ONat 0]%Z.
 Proof. vm_compute. reflexivity. Qed.
+
+(* ======================================================================================
+   backlog part: buffer.Unbounded[V] (toolkit/buffer/unbounded.go) and
+   channels.UnboundedBacklog[V] (toolkit/channels/unbounded_backlog.go) — a Go channel of
+   capacity 1 in front of a backlog slice; model MV.C15.BacklogModel (all names b/B-prefixed).
+   ====================================================================================== *)
+From MV Require Import C15.BacklogModel C15.BacklogProofs.
+
+(* Conservation + order, for EVERY sequence of Put/Load/Get(non-blocking receive)/Close/IsClosed
+   from the fresh container: the values handed out by the receives so far, followed by what the
+   container holds (channel cell, then backlog), are exactly the values of the accepted Puts
+   (= issued before the first Close) in insertion order.  Hence nothing is duplicated, reordered
+   or invented, and every accepted value is either received or still held.
+   (After Close the backlog part of [bheld] stays in the state but is unreachable: Load returns
+   early once closed — the documented gRPC-style behaviour; "read after close" is promised by the
+   property only for the ring-backed buffers.) *)
+Theorem C15_backlog_fifo : forall ops : list bop,
+  breceived (snd (brun binit ops)) ++ bheld (fst (brun binit ops)) = baccepted ops.
+Proof. exact backlog_fifo. Qed.
+Print Assumptions C15_backlog_fifo.
+
+(* non-vacuity: backlog of 2, a receive without Load (reports empty although values are held),
+   Load, receive, Put after Close is rejected, the buffered element is still delivered after Close *)
+Example C15_backlog_fifo_example :
+  let ops := [BPut 1; BPut 2; BPut 3; BGet; BGet; BLoad; BGet; BLoad; BClose; BPut 4; BGet; BGet; BLoad; BGet]%Z in
+  snd (brun binit ops) =
+    [BOUnit; BOUnit; BOUnit; BOVal 1; BOEmpty; BOUnit; BOVal 2; BOUnit; BOUnit; BOUnit; BOVal 3; BOClosed; BOUnit; BOClosed]%Z /\
+  breceived (snd (brun binit ops)) = [1; 2; 3]%Z /\ bheld (fst (brun binit ops)) = [] /\ baccepted ops = [1; 2; 3]%Z.
+Proof. vm_compute. repeat split. Qed.
+
+(* Nothing is stranded under the documented protocol: for every history without Close in which
+   every SUCCESSFUL receive is immediately followed by Load ([bprotocol], computable), an empty
+   channel cell implies an empty backlog; so a receive reports "empty" only when every accepted
+   value has already been received. *)
+Theorem C15_backlog_no_loss_under_protocol : forall ops : list bop,
+  bprotocol binit ops = true ->
+  let s := fst (brun binit ops) in
+  (bslot s = None -> bbacklog s = []) /\
+  (snd (bstep s BGet) = BOEmpty -> breceived (snd (brun binit ops)) = baccepted ops).
+Proof. exact backlog_no_loss_under_protocol. Qed.
+Print Assumptions C15_backlog_no_loss_under_protocol.
+
+(* non-vacuity: a protocol-following history (with an unsuccessful receive and a double Load) that
+   ends with an empty cell: hypotheses of both conjuncts hold; and a history that breaks the
+   protocol (receive without Load) really strands a value: the conclusion is not trivially true. *)
+Example C15_backlog_no_loss_example :
+  let ops := [BGet; BPut 1; BPut 2; BPut 3; BGet; BLoad; BLoad; BIsClosed; BGet; BLoad; BPut 4; BGet; BLoad; BGet; BLoad]%Z in
+  bprotocol binit ops = true /\ bslot (fst (brun binit ops)) = None /\
+  snd (bstep (fst (brun binit ops)) BGet) = BOEmpty /\ breceived (snd (brun binit ops)) = [1; 2; 3; 4]%Z /\
+  let bad := [BPut 1; BPut 2; BGet]%Z in
+  bprotocol binit bad = false /\ bslot (fst (brun binit bad)) = None /\ bbacklog (fst (brun binit bad)) = [2]%Z.
+Proof. vm_compute. repeat split. Qed.
+
+(* The purely syntactic protocol "no Close, every Get immediately followed by Load" is a special
+   case of the hypothesis above. *)
+Theorem C15_backlog_strict_protocol_suffices : forall ops : list bop,
+  bstrict ops = true -> bprotocol binit ops = true.
+Proof. exact backlog_strict_protocol_suffices. Qed.
+Print Assumptions C15_backlog_strict_protocol_suffices.
+
+Example C15_backlog_strict_example :
+  bstrict [BPut 1; BPut 2; BGet; BLoad; BIsClosed; BGet; BLoad; BGet; BLoad]%Z = true /\
+  bstrict [BPut 1; BGet; BPut 2; BLoad]%Z = false.
+Proof. vm_compute. split; reflexivity. Qed.
+
+(* Drain corollary: from any state reached by a protocol-following history, holding the values l,
+   length l consumer rounds Get;Load return exactly l in order (outputs BOVal v; BOUnit per value)
+   and leave the container empty; the extended history still follows the protocol and has then
+   received exactly the accepted values. *)
+Theorem C15_backlog_drain_under_protocol : forall ops : list bop,
+  bprotocol binit ops = true ->
+  let s := fst (brun binit ops) in
+  let l := bheld s in
+  let d := bdrain (length l) in
+  snd (brun s d) = bdrain_outs l /\
+  bheld (fst (brun s d)) = [] /\
+  bprotocol binit (ops ++ d) = true /\
+  breceived (snd (brun binit (ops ++ d))) = baccepted ops.
+Proof. exact backlog_drain_under_protocol. Qed.
+Print Assumptions C15_backlog_drain_under_protocol.
+
+Example C15_backlog_drain_example :
+  let ops := [BPut 1; BPut 2; BPut 3; BGet; BLoad; BPut 4; BPut 5]%Z in
+  bprotocol binit ops = true /\ bheld (fst (brun binit ops)) = [2; 3; 4; 5]%Z /\
+  snd (brun (fst (brun binit ops)) (bdrain 4)) =
+    [BOVal 2; BOUnit; BOVal 3; BOUnit; BOVal 4; BOUnit; BOVal 5; BOUnit]%Z.
+Proof. vm_compute. repeat split. Qed.
+
+(* Close: IsClosed reports exactly "a Close was issued"; after a Close, IsClosed stays true, and
+   once the channel cell has been found empty (at the end of ops) every later receive — whatever
+   operations ops' come in between, Puts and Loads included — reports closed: the output ends. *)
+Theorem C15_backlog_closed_reports : forall ops ops' : list bop,
+  let s1 := fst (brun binit ops) in
+  let s2 := fst (brun binit (ops ++ ops')) in
+  snd (bstep s1 BIsClosed) = BOBool (bhas_close ops) /\
+  (In BClose ops ->
+     snd (bstep s2 BIsClosed) = BOBool true /\
+     (bslot s1 = None -> snd (bstep s2 BGet) = BOClosed)).
+Proof. exact backlog_closed_reports. Qed.
+Print Assumptions C15_backlog_closed_reports.
+
+Example C15_backlog_closed_example :
+  let ops := [BPut 1; BPut 2; BClose; BGet]%Z in
+  let ops' := [BPut 3; BLoad; BClose; BLoad]%Z in
+  In BClose ops /\ bslot (fst (brun binit ops)) = None /\ bhas_close ops = true /\
+  snd (brun binit (ops ++ ops' ++ [BGet; BIsClosed])) =
+    [BOUnit; BOUnit; BOUnit; BOVal 1; BOUnit; BOUnit; BOUnit; BOUnit; BOClosed; BOBool true]%Z /\
+  snd (bstep (fst (brun binit [BPut 1; BGet]%Z)) BIsClosed) = BOBool false.
+Proof. vm_compute. repeat split. right; right; left; reflexivity. Qed.
+
+(* ======================================================================================
+   lfq part: toolkit/queues/lock_free.go (LFQueue, Michael–Scott lock-free queue) — layer-A machine
+   MV.C15.LfqModel: one step per atomic.LoadPointer / CompareAndSwapPointer of Push and Pop, heap of
+   nodes numbered in allocation order, any number of producer and consumer goroutines spawned by the
+   environment thread, every schedule ([reach qinit]). The abstract queue [absq] is the list of values
+   of the nodes reachable from head.next. Modelling assumptions: sync/atomic is sequentially
+   consistent; a node is never reused while a goroutine still holds a pointer to it (garbage
+   collection), hence no ABA.
+   ====================================================================================== *)
+From MV Require Import Lib.Sched C15.LfqModel C15.LfqProofs.
+
+(* Linearization of Push: the step in which a producer's CAS on tail.next succeeds appends exactly the
+   value that producer is pushing to the abstract queue (and changes nothing else of it). *)
+Theorem C15_ms_push_linearizes : forall (st : state Lfq) i c (st' : state Lfq) t n,
+  reach qinit st -> gstep st i c = Some (st', QEvCasNext t n true) ->
+  exists v rest, nth_error (snd st) i = Some (Some (QPCasNext n v t rest)) /\
+                 absq (fst st') = absq (fst st) ++ [v].
+Proof. exact ms_push_linearizes. Qed.
+Print Assumptions C15_ms_push_linearizes.
+
+Example C15_ms_push_linearizes_example :
+  reach qinit ex_state_before_link /\ absq (fst ex_state_before_link) = [7] /\
+  exists st', gstep ex_state_before_link 2 QCNone = Some (st', QEvCasNext 1 2 true) /\ absq (fst st') = [7; 8].
+Proof.
+  split; [exact ex_reach_link|]. split; [vm_compute; reflexivity|].
+  eexists. split; vm_compute; reflexivity.
+Qed.
+
+(* Linearization of Pop: the step in which a consumer's CAS on head succeeds removes exactly the first
+   element of the abstract queue, and that element is the value this Pop returns (its next step is the
+   return of [Some v]). *)
+Theorem C15_ms_pop_linearizes : forall (st : state Lfq) i c (st' : state Lfq) h x,
+  reach qinit st -> gstep st i c = Some (st', QEvCasHead h x true) ->
+  exists v k, nth_error (snd st) i = Some (Some (QCCasHead h x v k)) /\
+              absq (fst st) = v :: absq (fst st') /\
+              nth_error (snd st') i = Some (Some (QCRet (Some v) false k)).
+Proof. exact ms_pop_linearizes. Qed.
+Print Assumptions C15_ms_pop_linearizes.
+
+Example C15_ms_pop_linearizes_example :
+  reach qinit ex_state_before_pop /\ absq (fst ex_state_before_pop) = [7; 8] /\
+  exists st', gstep ex_state_before_pop 3 QCNone = Some (st', QEvCasHead 0 1 true) /\ absq (fst st') = [8] /\
+              nth_error (snd st') 3 = Some (Some (QCRet (Some 7) false 0)).
+Proof.
+  split; [exact ex_reach_pop|]. split; [vm_compute; reflexivity|].
+  eexists. split; [vm_compute; reflexivity|]. split; vm_compute; reflexivity.
+Qed.
+
+(* Every other step — loads, failed CASes, CASes on tail (including helping), allocation, spawning of
+   goroutines, returns — leaves the abstract queue unchanged: the two CASes above are the only
+   linearization points. *)
+Theorem C15_ms_other_steps_keep_queue : forall (st : state Lfq) i c (st' : state Lfq) e,
+  reach qinit st -> gstep st i c = Some (st', e) -> is_lin e = false -> absq (fst st') = absq (fst st).
+Proof. exact ms_other_steps_keep_queue. Qed.
+Print Assumptions C15_ms_other_steps_keep_queue.
+
+Example C15_ms_other_steps_example :
+  exists st' e, gstep ex_state_before_pop 2 QCNone = Some (st', e) /\ e = QEvCasTail 1 2 true /\
+                is_lin e = false /\ absq (fst st') = [7; 8].
+Proof.
+  eexists. eexists. split; [vm_compute; reflexivity|]. split; [reflexivity|]. split; vm_compute; reflexivity.
+Qed.
+
+(* A nil return implies the abstract queue was empty when this Pop loaded head.next: a consumer that is
+   about to return nil carries the ghost flag [true]; the flag is written only by the load of
+   head.next, as "absq = [] now" (second theorem), and is carried unchanged to the return (third). *)
+Theorem C15_ms_nil_means_was_empty : forall (st : state Lfq) i we k,
+  reach qinit st -> nth_error (snd st) i = Some (Some (QCRet None we k)) -> we = true.
+Proof. exact ms_nil_means_was_empty. Qed.
+Print Assumptions C15_ms_nil_means_was_empty.
+
+Theorem C15_ms_flag_set_at_next_load : forall (st : state Lfq) i c (st' : state Lfq) e h t k,
+  nth_error (snd st) i = Some (Some (QCLdNext h t k)) -> gstep st i c = Some (st', e) ->
+  nth_error (snd st') i = Some (Some (QCChk h t (nxt_of (qheap (fst st)) h) (is_nil (absq (fst st))) k)).
+Proof. exact ms_flag_set_at_next_load. Qed.
+Print Assumptions C15_ms_flag_set_at_next_load.
+
+Theorem C15_ms_flag_carried : forall (st : state Lfq) i c (st' : state Lfq) e h t nx we k r we' k',
+  nth_error (snd st) i = Some (Some (QCChk h t nx we k)) -> gstep st i c = Some (st', e) ->
+  nth_error (snd st') i = Some (Some (QCRet r we' k')) -> r = None /\ we' = we /\ k' = k.
+Proof. exact ms_flag_carried. Qed.
+Print Assumptions C15_ms_flag_carried.
+
+Example C15_ms_nil_example :
+  reach qinit ex_state_nil /\ nth_error (snd ex_state_nil) 1 = Some (Some (QCRet None true 0)).
+Proof. split; [exact ex_reach_nil|vm_compute; reflexivity]. Qed.
+
+(* FIFO, exactly once, nothing invented: in every reachable state the values linked by the successful
+   CASes on tail.next (in that order) are the values removed by the successful CASes on head (in that
+   order) followed by the abstract queue. With the two linearization theorems: what the Pops return,
+   in linearization order, is a prefix of what the Pushes inserted, in linearization order; a
+   producer's own Pushes are sequential steps of one thread, so per-producer order is kept. *)
+Theorem C15_ms_fifo_exactly_once : forall st : state Lfq,
+  reach qinit st -> qpushed (fst st) = qpopped (fst st) ++ absq (fst st).
+Proof. exact ms_fifo. Qed.
+Print Assumptions C15_ms_fifo_exactly_once.
+
+Example C15_ms_fifo_example :
+  exists st' e, gstep ex_state_before_pop 3 QCNone = Some (st', e) /\
+    qpushed (fst st') = [7; 8] /\ qpopped (fst st') = [7] /\ absq (fst st') = [8].
+Proof.
+  eexists. eexists. split; [vm_compute; reflexivity|]. split; [vm_compute; reflexivity|]. split; vm_compute; reflexivity.
+Qed.
+
+(* Pop never dereferences a nil next pointer (the plain read next.value is safe), and head never
+   overtakes tail in link order. *)
+Theorem C15_ms_no_nil_deref : forall (st : state Lfq) i,
+  reach qinit st -> nth_error (snd st) i <> Some (Some QCCrash).
+Proof. exact ms_no_nil_deref. Qed.
+Print Assumptions C15_ms_no_nil_deref.
+
+Theorem C15_ms_head_behind_tail : forall st : state Lfq, reach qinit st ->
+  qhidx (fst st) <= qtidx (fst st) /\
+  nth_error (qchain (fst st)) (qhidx (fst st)) = Some (qhead (fst st)) /\
+  nth_error (qchain (fst st)) (qtidx (fst st)) = Some (qtail (fst st)).
+Proof. exact ms_head_behind_tail. Qed.
+Print Assumptions C15_ms_head_behind_tail.
+
+(* ======================================================================================================
+   RingUnbounded (toolkit/buffer/ring_unbounded.go): ring + mutex + cond + RWMutex + pump goroutine.
+   Machine MV.C15.RuPumpModel.RuPump over MV.Lib.Sched; [RuPump true] = the code with
+   fixes/C15-ringunbounded-close.patch applied (the pump re-reads the ring after cond.Wait),
+   [RuPump false] = the code as it is. Quantification: every reachable state = every schedule of any
+   number of concurrent Write(v) and Close() callers (spawned at will by the environment thread), the
+   pump and one consumer; every channel capacity n. All names are qualified (no clash with other parts). *)
+From MV Require Import Lib.Sched C15.RuPumpModel C15.RuPumpProofs.
+
+(* Loss-free FIFO, exactly once, nothing invented: in every reachable state the sequence of accepted
+   elements (in the order of their ring.Write steps) is exactly: what the consumer has received, then
+   what is in the channel, then what the pump holds in its local slice, then what is in the ring.
+   Hence the received sequence is always an initial segment of the accepted one. *)
+Theorem C15_rupump_prefix : forall (n : nat) (st : Sched.state (RuPumpModel.RuPump true)),
+  Sched.reach (RuPumpModel.init true n) st ->
+  RuPumpModel.accepted (fst st) =
+    RuPumpModel.received (fst st) ++ RuPumpModel.rc (fst st) ++ RuPumpModel.held (snd st) ++ RuPumpModel.ring (fst st).
+Proof. exact RuPumpProofs.rupump_prefix. Qed.
+Print Assumptions C15_rupump_prefix.
+
+(* non-vacuity: three Writes; 7 has been received, the pump holds 8 in its slice, 9 is in the ring *)
+Example C15_rupump_prefix_example :
+  exists st es,
+    Sched.run (RuPumpModel.init true 0)
+      ([(0, RuPumpModel.CWrite 7); (0, RuPumpModel.CWrite 8); (0, RuPumpModel.CWrite 9)]
+       ++ repeat (3, RuPumpModel.CNone) 7 ++ repeat (1, RuPumpModel.CNone) 9 ++ [(2, RuPumpModel.CNone)]
+       ++ repeat (4, RuPumpModel.CNone) 7 ++ repeat (1, RuPumpModel.CNone) 9
+       ++ repeat (5, RuPumpModel.CNone) 7)%nat = Some (st, es) /\
+    RuPumpModel.accepted (fst st) = [7; 8; 9]%nat /\ RuPumpModel.received (fst st) = [7]%nat /\
+    RuPumpModel.rc (fst st) = [] /\ RuPumpModel.held (snd st) = [8]%nat /\ RuPumpModel.ring (fst st) = [9]%nat.
+Proof. vm_compute. eexists. eexists. split; [reflexivity|]. cbn. repeat split; reflexivity. Qed.
+
+(* Elements accepted before closing can still be read, after which the output ends: whenever the output
+   channel has been closed, the ring is empty and the pump holds nothing, so every accepted element has
+   been received or is still readable from the (closed, buffered) channel; closed = true holds. *)
+Theorem C15_rupump_drains_after_close : forall (n : nat) (st : Sched.state (RuPumpModel.RuPump true)),
+  Sched.reach (RuPumpModel.init true n) st -> RuPumpModel.rc_closed (fst st) = true ->
+  RuPumpModel.ring (fst st) = [] /\ RuPumpModel.held (snd st) = [] /\ RuPumpModel.closed (fst st) = true /\
+  RuPumpModel.accepted (fst st) = RuPumpModel.received (fst st) ++ RuPumpModel.rc (fst st).
+Proof. exact RuPumpProofs.rupump_drains. Qed.
+Print Assumptions C15_rupump_drains_after_close.
+
+(* ... and closed = true is stable; from then on no Write is accepted any more. *)
+Theorem C15_rupump_closed_stable : forall (n : nat) (st : Sched.state (RuPumpModel.RuPump true)) i c st' e,
+  Sched.reach (RuPumpModel.init true n) st -> RuPumpModel.closed (fst st) = true ->
+  Sched.gstep st i c = Some (st', e) ->
+  RuPumpModel.closed (fst st') = true /\ RuPumpModel.accepted (fst st') = RuPumpModel.accepted (fst st).
+Proof. exact RuPumpProofs.rupump_closed_stable. Qed.
+Print Assumptions C15_rupump_closed_stable.
+
+(* No element is stranded and the output does end: when Close has taken effect and no Write, Close, pump
+   or consumer thread can take a step any more (each has returned or is blocked), the channel and the
+   Close() signal are closed, the channel is drained and everything accepted has been received. *)
+Theorem C15_rupump_closes_when_quiescent : forall (n : nat) (st : Sched.state (RuPumpModel.RuPump true)),
+  Sched.reach (RuPumpModel.init true n) st -> RuPumpModel.closed (fst st) = true -> RuPumpModel.stuck st ->
+  RuPumpModel.rc_closed (fst st) = true /\ RuPumpModel.sig_closed (fst st) = true /\
+  RuPumpModel.rc (fst st) = [] /\ RuPumpModel.accepted (fst st) = RuPumpModel.received (fst st).
+Proof. exact RuPumpProofs.rupump_quiescent. Qed.
+Print Assumptions C15_rupump_closes_when_quiescent.
+
+(* non-vacuity of the three theorems above: the schedule of Write(7); Close() on which the unrepaired code
+   loses the element (pump parked in cond.Wait, then the Write, then Close, then the pump wakes up), run on
+   the repaired machine to the end: the channel is closed, 7 was received, nobody can move *)
+Example C15_rupump_close_example :
+  exists st es,
+    Sched.run (RuPumpModel.init true 0)
+      (repeat (1, RuPumpModel.CNone) 6 ++ [(0, RuPumpModel.CWrite 7)] ++ repeat (3, RuPumpModel.CNone) 7
+       ++ [(0, RuPumpModel.CClose)] ++ repeat (4, RuPumpModel.CNone) 7 ++ repeat (1, RuPumpModel.CNone) 18
+       ++ repeat (2, RuPumpModel.CNone) 2)%nat = Some (st, es) /\
+    RuPumpModel.closed (fst st) = true /\ RuPumpModel.rc_closed (fst st) = true /\ RuPumpModel.stuck st /\
+    RuPumpModel.accepted (fst st) = [7]%nat /\ RuPumpModel.received (fst st) = [7]%nat.
+Proof.
+  vm_compute. eexists. eexists. split; [reflexivity|]. cbn. repeat split; try reflexivity.
+  intros i l c Hn Hne. do 5 (destruct i as [|i]; [cbn in Hn; inversion Hn; congruence|]).
+  destruct i; discriminate.
+Qed.
+
+(* The code AS IT IS in /repo violates the property: there is a run (the same Write(7); Close() schedule) at
+   whose end every thread has returned, the output channel and the Close() signal are closed, the channel is
+   empty, the element 7 was accepted, was never received and is still in the ring. Confirmed on the real
+   code by harness/cmd/c15rupump (monitor kind rupump:lost-before-close). *)
+Theorem C15_rupump_asis_refuted : forall n : nat,
+  exists st : Sched.state (RuPumpModel.RuPump false),
+    Sched.reach (RuPumpModel.init false n) st /\
+    RuPumpModel.rc_closed (fst st) = true /\ RuPumpModel.sig_closed (fst st) = true /\
+    snd st = [Some RuPumpModel.Env; None; None; None; None] /\
+    RuPumpModel.accepted (fst st) = [7%nat] /\ RuPumpModel.received (fst st) = [] /\
+    RuPumpModel.rc (fst st) = [] /\ RuPumpModel.ring (fst st) = [7%nat].
+Proof. exact RuPumpProofs.rupump_asis_refuted. Qed.
+Print Assumptions C15_rupump_asis_refuted.
+(* ======================================================================================
+   mpsc part: queues.MPSC (toolkit/queues/mpsc.go), Vyukov's intrusive multi-producer
+   single-consumer queue — machine MV.C15.MpscModel (all names m/M-prefixed), one step per
+   sync/atomic operation (Push: alloc, SwapPointer(&q.head), StorePointer(&prev.next);
+   Pop: LoadPointer(&tail.next), return). Quantification: every reachable state of the
+   interleaving semantics = every schedule, any number of producer goroutines (spawned at
+   will by the environment thread), at most one consumer goroutine (Pop's precondition).
+   [mswapped] = pushed values in the order of their Swap (linearization order of Push),
+   [mpopped] = values returned by successful Pops, [mabsq] = swapped and not yet popped,
+   [mlinked] = what is concretely reachable from q.tail through the next pointers.
+   Assumptions of the model: sync/atomic sequentially consistent; nodes never reused (GC);
+   q.tail / next.val touched by the single consumer only.
+   ====================================================================================== *)
+From MV Require Import Lib.Sched C15.MpscModel C15.MpscProofs.
+
+(* FIFO, exactly once, nothing invented — as an invariant of every reachable state:
+   (1) the swapped values are, in Swap order, the popped values followed by the abstract queue
+       (no loss, no duplication, no reordering between the linearization order of the Pushes and
+       the order of the Pops);
+   (2) for every value v: (#occurrences of v in [mswapped]) + (#occurrences of v still pending in
+       live producers) = (#occurrences of v handed to producers by the environment): a value is
+       swapped in exactly as often as it was given to a producer, never invented, never twice;
+   (3) there is never more than one consumer thread. *)
+Theorem C15_mpsc_fifo_exactly_once : forall st, reach minit st ->
+  mpopped (fst st) ++ mabsq (fst st) = mswapped (fst st) /\
+  (forall v, (mcount (mswapped (fst st)) v + MpT (mcnt v) (snd st) = mcount (mgiven (fst st)) v)%Z) /\
+  (MpT mis_cons (snd st) <= 1)%Z.
+Proof. exact mpsc_fifo_exactly_once. Qed.
+Print Assumptions C15_mpsc_fifo_exactly_once.
+
+(* Corollary: no value is handed out (or still queued) more often than it was put in, and every value
+   handed out was put in. *)
+Theorem C15_mpsc_nothing_invented : forall st, reach minit st ->
+  forall v, (mcount (mpopped (fst st)) v + mcount (mabsq (fst st)) v <= mcount (mgiven (fst st)) v)%Z /\
+            (In v (mpopped (fst st)) -> In v (mgiven (fst st))).
+Proof. exact mpsc_nothing_invented. Qed.
+Print Assumptions C15_mpsc_nothing_invented.
+
+(* The real content of (1): what every single step does to the two histories.
+   - A Pop whose load of tail.next is non-nil returns exactly the FIRST element of the abstract queue
+     and removes exactly it (its thread continues at "return (Some v)").
+   - A Push appends exactly its own value to [mswapped] (hence to the end of the abstract queue) at
+     its Swap step.
+   - No other step (allocation, the Store that links the node, a nil load, returns, spawns) changes
+     [mswapped] or [mpopped]. *)
+Theorem C15_mpsc_step_effect : forall st i c st' e, reach minit st -> gstep st i c = Some (st', e) ->
+  match e with
+  | MEvLoadNext t (Some x) =>
+      exists v rest k, nth_error (snd st) i = Some (Some (MCLoad k)) /\
+        mabsq (fst st) = v :: rest /\ mabsq (fst st') = rest /\
+        mpopped (fst st') = mpopped (fst st) ++ [v] /\ mswapped (fst st') = mswapped (fst st) /\
+        nth_error (snd st') i = Some (Some (MCRet (Some v) k))
+  | MEvSwap n old =>
+      exists v rest, nth_error (snd st) i = Some (Some (MPSwap n v rest)) /\
+        mswapped (fst st') = mswapped (fst st) ++ [v] /\ mpopped (fst st') = mpopped (fst st) /\
+        mabsq (fst st') = mabsq (fst st) ++ [v] /\
+        nth_error (snd st') i = Some (Some (MPStore old n rest))
+  | _ => mswapped (fst st') = mswapped (fst st) /\ mpopped (fst st') = mpopped (fst st)
+  end.
+Proof. exact mpsc_step_effect. Qed.
+Print Assumptions C15_mpsc_step_effect.
+
+(* Per-producer order: a step of a producer thread either leaves [mswapped] and the thread's list of
+   pending values unchanged, or moves exactly the FIRST pending value to the end of [mswapped]. Steps of
+   other threads do not touch the thread (C15_mpsc_frame), and a producer spawned with [MCProd vs] starts
+   with pending = vs (C15_mpsc_spawn). So the values of one producer enter [mswapped] — and by
+   C15_mpsc_fifo_exactly_once leave the queue — in its program order. *)
+Theorem C15_mpsc_producer_program_order : forall (st : state Mpsc) i c st' e l,
+  nth_error (snd st) i = Some (Some l) -> mis_prod l -> gstep st i c = Some (st', e) ->
+  (mswapped (fst st') = mswapped (fst st) /\ mpending_at (snd st') i = mpending l) \/
+  (exists v, mpending l = v :: mpending_at (snd st') i /\ mswapped (fst st') = mswapped (fst st) ++ [v]).
+Proof. exact mpsc_producer_program_order. Qed.
+Print Assumptions C15_mpsc_producer_program_order.
+
+Theorem C15_mpsc_frame : forall (st : state Mpsc) i c st' e j,
+  gstep st i c = Some (st', e) -> j <> i -> j < length (snd st) -> nth_error (snd st') j = nth_error (snd st) j.
+Proof. exact mpsc_other_threads_unchanged. Qed.
+Print Assumptions C15_mpsc_frame.
+
+Theorem C15_mpsc_spawn : forall (st : state Mpsc) c st' e vs,
+  gstep st 0 c = Some (st', e) -> nth_error (snd st) 0 = Some (Some MEnv) -> c = MCProd vs ->
+  snd st' = upd 0 (Some MEnv) (snd st) ++ [Some (match vs with v :: r => MPAlloc v r | [] => MEnv end)] /\
+  mpending_at (snd st') (length (snd st)) = vs /\ mgiven (fst st') = mgiven (fst st) ++ vs.
+Proof. exact mpsc_spawned_producer_pending. Qed.
+Print Assumptions C15_mpsc_spawn.
+
+(* The concretely linked list behind tail is always a PREFIX of the abstract queue, and it is the whole
+   abstract queue whenever no producer is between its Swap and its Store. *)
+Theorem C15_mpsc_linked_prefix : forall st, reach minit st ->
+  (exists rest, mabsq (fst st) = mlinked (fst st) ++ rest) /\
+  (min_window st = 0%Z -> mlinked (fst st) = mabsq (fst st)).
+Proof. exact mpsc_linked_prefix. Qed.
+Print Assumptions C15_mpsc_linked_prefix.
+
+(* The link invariant behind both: two consecutive nodes (a, b) of the chain (stub first, then the nodes in
+   Swap order) are either linked, and then no thread is at MPStore a b, or a.next is still nil, and then
+   EXACTLY ONE thread — b's producer — is at MPStore a b. *)
+Theorem C15_mpsc_link_or_exactly_one : forall st, reach minit st ->
+  forall i, S i < length (mfull (fst st)) ->
+    let a := nth i (mfull (fst st)) O in let b := nth (S i) (mfull (fst st)) O in
+    (mnxt_of (mheap (fst st)) a = Some b /\ MpT (mat_pair a b) (snd st) = 0%Z) \/
+    (mnxt_of (mheap (fst st)) a = None /\ MpT (mat_pair a b) (snd st) = 1%Z).
+Proof. exact mpsc_link_or_exactly_one. Qed.
+Print Assumptions C15_mpsc_link_or_exactly_one.
+
+(* The ALLOWED window. A Pop returns nil (its load of tail.next finds nil) only when the abstract queue
+   is empty, OR the producer of its first element is at MPStore (tail, b): it has swapped b in and has not
+   yet stored tail.next := b. In that window the consumer is told "empty" although a Push has passed its
+   linearization point; property C15 allows this: the report loses nothing — the step changes no part of
+   the shared state, the element stays first in the abstract queue, and by C15_mpsc_step_effect it is
+   what the next successful Pop returns (by C15_mpsc_nothing_stranded at the latest when the producers
+   have finished). *)
+Theorem C15_mpsc_nil_allowed_window : forall st i c st' t, reach minit st ->
+  gstep st i c = Some (st', MEvLoadNext t None) ->
+  fst st' = fst st /\
+  (exists k, nth_error (snd st) i = Some (Some (MCLoad k)) /\ nth_error (snd st') i = Some (Some (MCRet None k))) /\
+  (mabsq (fst st) = [] \/
+   exists j b rest, nth_error (snd st) j = Some (Some (MPStore (mtail (fst st)) b rest)) /\
+                    hd_error (mabsq (fst st)) = Some (mval_of (mheap (fst st)) b)).
+Proof. exact mpsc_nil_allowed_window. Qed.
+Print Assumptions C15_mpsc_nil_allowed_window.
+
+(* Nothing is stranded: when no producer thread is live any more, everything swapped and not yet popped is
+   linked behind tail in order, and every value ever handed to a producer has been swapped in exactly
+   once ... *)
+Theorem C15_mpsc_nothing_stranded : forall st, reach minit st -> mno_producer st ->
+  mlinked (fst st) = mabsq (fst st) /\
+  (forall v, mcount (mswapped (fst st)) v = mcount (mgiven (fst st)) v).
+Proof. exact mpsc_nothing_stranded. Qed.
+Print Assumptions C15_mpsc_nothing_stranded.
+
+(* ... and the consumer gets all of it: if the consumer is about to Pop and has at least |absq| Pops left,
+   then running it alone (2 steps per Pop) succeeds, the Pops return exactly the remaining values in
+   order, and the queue is empty afterwards. *)
+Theorem C15_mpsc_drain : forall n st i k, reach minit st -> mno_producer st ->
+  length (mabsq (fst st)) = n ->
+  nth_error (snd st) i = Some (Some (MCLoad k)) -> n <= S k ->
+  exists st' es, Sched.run st (repeat (i, MCNone) (2 * n)) = Some (st', es) /\
+    mpopped (fst st') = mpopped (fst st) ++ mabsq (fst st) /\ mabsq (fst st') = [] /\
+    mrets es = map Some (mabsq (fst st)).
+Proof. exact mpsc_drain. Qed.
+Print Assumptions C15_mpsc_drain.
+
+(* non-vacuity. Threads: 0 = environment, 1 = producer of [11], 2 = producer of [21], 3 = consumer (3 Pops).
+   Producer 1 swaps node 1 in and is descheduled before its Store; producer 2 swaps node 2 in and links it
+   behind node 1. Now two values are in the abstract queue and NOTHING is reachable from tail. *)
+Definition mp_example_sched : list (nat * mchoice) :=
+  [(0, MCProd [11]); (0, MCProd [21]); (0, MCCons 2); (1, MCNone); (2, MCNone);
+   (1, MCNone); (2, MCNone); (2, MCNone)].
+
+Example C15_mpsc_window_example :
+  exists st st' es, Sched.run minit mp_example_sched = Some (st, es) /\
+    mabsq (fst st) = [11; 21] /\ mlinked (fst st) = [] /\ min_window st = 1%Z /\
+    gstep st 3 MCNone = Some (st', MEvLoadNext 0 None) /\ fst st' = fst st.
+Proof. eexists. eexists. eexists. split; [vm_compute; reflexivity|]. vm_compute. repeat split. Qed.
+
+(* ... producer 1 then performs its Store: both values are linked; no producer is live; the consumer's
+   pending nil return and two further Pops deliver 11 then 21 *)
+Example C15_mpsc_fifo_example :
+  exists st es, Sched.run minit (mp_example_sched ++ [(3, MCNone); (1, MCNone); (3, MCNone); (3, MCNone); (3, MCNone); (3, MCNone); (3, MCNone)])
+                = Some (st, es) /\
+    mrets es = [None; Some 11; Some 21] /\ mpopped (fst st) = [11; 21] /\ mabsq (fst st) = [] /\
+    mswapped (fst st) = [11; 21] /\ mgiven (fst st) = [11; 21] /\ snd st = [Some MEnv; None; None; None].
+Proof. eexists. eexists. split; [vm_compute; reflexivity|]. vm_compute. repeat split. Qed.
+
+Example C15_mpsc_stranded_example :
+  exists st es, Sched.run minit (mp_example_sched ++ [(3, MCNone); (1, MCNone); (3, MCNone)]) = Some (st, es) /\
+    mno_producer st /\ mlinked (fst st) = [11; 21] /\ mabsq (fst st) = [11; 21] /\
+    nth_error (snd st) 3 = Some (Some (MCLoad 1)) /\
+    exists st' es', Sched.run st (repeat (3, MCNone) 4) = Some (st', es') /\ mrets es' = [Some 11; Some 21].
+Proof.
+  eexists. eexists. split; [vm_compute; reflexivity|]. split.
+  { intros i l Hi. destruct i as [|[|[|[|[|i]]]]]; vm_compute in Hi; inversion Hi; subst; cbn; tauto. }
+  vm_compute. repeat split. eexists. eexists. split; reflexivity.
+Qed.
+
+(* ======================================================================================================
+   channels.UnboundedRing (toolkit/channels/unbounded_ring.go): layer-A machine MV.C15.UrPumpModel.
+   [UrPump true] is the code repaired by fixes/C15-unboundedring-cancel.patch, [UrPump false] the code as it
+   is. Quantification: every schedule, any number of concurrent Put and Close calls (spawned by the
+   environment thread at will), cancellation of the context at any moment, every channel capacity [cap],
+   one consumer that may start at any time. *)
+From MV Require Import Lib.Sched C15.UrPumpModel C15.UrPumpProofs.
+
+(* FIFO, exactly once, nothing invented: in every reachable state the values written by accepted Puts are, in
+   write order, the values received so far, followed by the channel buffer, by what the pump holds locally
+   (still to be sent), by the contents of the ring. *)
+Theorem C15_urpump_prefix : forall (cap : nat) (st : Sched.state (UrPump true)),
+  Sched.reach (ur_init true cap) st ->
+  ur_accepted (fst st) = ur_received (fst st) ++ ur_ch (fst st) ++ ur_held st ++ ur_ring (fst st).
+Proof. exact (ur_prefix true). Qed.
+Print Assumptions C15_urpump_prefix.
+
+(* the same, per class of values (one producer's): the received values of the class are a prefix, in order, of
+   the accepted values of the class — the form checked on every recorded run (UrPumpRun) *)
+Theorem C15_urpump_prefix_per_producer : forall (cap : nat) (st : Sched.state (UrPump true)) (f : nat -> bool),
+  Sched.reach (ur_init true cap) st ->
+  exists rest, filter f (ur_accepted (fst st)) = filter f (ur_received (fst st)) ++ rest.
+Proof. exact (ur_filter_prefix true). Qed.
+Print Assumptions C15_urpump_prefix_per_producer.
+
+Example C15_urpump_prefix_example :
+  exists st es,
+    Sched.run (ur_init true 1)
+      [(0, UrCPut [1; 2]); (4, UrCNone); (4, UrCNone); (4, UrCNone); (4, UrCNone); (4, UrCNone); (4, UrCNone);
+       (1, UrCNone); (1, UrCNone); (1, UrCNone); (1, UrCNone); (1, UrCNone);
+       (0, UrCPut [3]); (5, UrCNone); (5, UrCNone); (5, UrCNone)]%nat = Some (st, es)
+    /\ ur_accepted (fst st) = [1; 2; 3]%nat /\ ur_received (fst st) = [] /\ ur_ch (fst st) = [1]%nat
+    /\ ur_held st = [2]%nat /\ ur_ring (fst st) = [3]%nat.
+Proof. eexists. eexists. split; [vm_compute; reflexivity | vm_compute; repeat split]. Qed.
+
+(* Elements accepted before Close()/cancellation can still be read, after which the output ends — safety half:
+   whenever the output channel is closed, Close() had been called (by the client or by the watcher on
+   cancellation), the ring is empty and the pump holds nothing, so every accepted element has been received or
+   sits in the channel buffer, where the consumer reads it before it sees the end. *)
+Theorem C15_urpump_drains_after_close : forall (cap : nat) (st : Sched.state (UrPump true)),
+  Sched.reach (ur_init true cap) st -> ur_chclosed (fst st) = true ->
+  ur_closed (fst st) = true /\ ur_ring (fst st) = [] /\ ur_held st = [] /\
+  ur_accepted (fst st) = ur_received (fst st) ++ ur_ch (fst st).
+Proof. exact (ur_drains true). Qed.
+Print Assumptions C15_urpump_drains_after_close.
+
+(* ... and nothing is accepted afterwards: once [closed] is set it stays set, no Put is accepted any more (Put
+   returns its error), and a closed output channel stays closed. *)
+Theorem C15_urpump_closed_is_final : forall (cap : nat) (st st' : Sched.state (UrPump true)),
+  Sched.reach (ur_init true cap) st -> Sched.reach st st' -> ur_closed (fst st) = true ->
+  ur_closed (fst st') = true /\ ur_accepted (fst st') = ur_accepted (fst st) /\
+  (ur_chclosed (fst st) = true -> ur_chclosed (fst st') = true).
+Proof. exact (ur_closed_stable true). Qed.
+Print Assumptions C15_urpump_closed_is_final.
+
+(* the pump never sends on, and never closes, an already closed channel (either would panic): every pump
+   thread that has not yet executed close(ch) lives in a state where the channel is open *)
+Theorem C15_urpump_no_panic : forall (cap : nat) (st : Sched.state (UrPump true)) (i : nat) (l : urpc),
+  Sched.reach (ur_init true cap) st -> nth_error (snd st) i = Some (Some l) -> ur_act l = 1%Z ->
+  ur_chclosed (fst st) = false.
+Proof. exact (ur_no_chan_panic true). Qed.
+Print Assumptions C15_urpump_no_panic.
+
+(* ... liveness half, in the no-stranded style of C01/C02: if Close() has been called or the context has been
+   cancelled, and no thread other than the environment can take a step any more (the consumer included: it
+   has ended, or it would be blocked on an open, empty channel), then the output channel IS closed and the
+   consumer has received every accepted element. (Not a termination proof: a schedule that starves a thread
+   for ever is outside this statement; the repaired code has no spinning loop.) *)
+Theorem C15_urpump_closes_when_quiescent : forall (cap : nat) (st : Sched.state (UrPump true)),
+  (1 <= cap)%nat -> Sched.reach (ur_init true cap) st -> ur_quiescent st ->
+  ur_closed (fst st) = true \/ ur_cancelled (fst st) = true ->
+  ur_chclosed (fst st) = true /\ ur_received (fst st) = ur_accepted (fst st).
+Proof. intros cap st. exact (ur_closes_when_quiescent true cap st eq_refl). Qed.
+Print Assumptions C15_urpump_closes_when_quiescent.
+
+(* non-vacuity of the three statements above: Put(1,2) is accepted, the context is cancelled, the watcher
+   closes, the pump delivers both values and closes the channel, the consumer reads 1, 2 and the end;
+   the final state is quiescent (only the environment is left) *)
+Definition C15_urpump_cancel_run : list (nat * urchoice) :=
+  [(0, UrCPut [1; 2]); (4, UrCNone); (4, UrCNone); (4, UrCNone); (4, UrCNone); (4, UrCNone); (4, UrCNone);
+   (0, UrCCancel);
+   (3, UrCNone); (3, UrCNone); (3, UrCNone); (3, UrCNone); (3, UrCNone);
+   (1, UrCNone); (1, UrCNone); (1, UrCNone); (1, UrCNone); (1, UrCNone); (1, UrCNone); (1, UrCNone);
+   (2, UrCNone);
+   (1, UrCNone); (1, UrCNone); (1, UrCNone); (1, UrCNone); (1, UrCNone); (1, UrCNone);
+   (2, UrCNone); (2, UrCNone)]%nat.
+
+Example C15_urpump_drains_example :
+  exists st es,
+    Sched.run (ur_init true 2) C15_urpump_cancel_run = Some (st, es)
+    /\ ur_cancelled (fst st) = true /\ ur_chclosed (fst st) = true
+    /\ ur_accepted (fst st) = [1; 2]%nat /\ ur_received (fst st) = [1; 2]%nat
+    /\ snd st = [Some UrEnv; None; None; None; None]
+    /\ ur_quiescent st.
+Proof.
+  eexists. eexists. split; [vm_compute; reflexivity|].
+  repeat split; try (vm_compute; reflexivity).
+  intros i l c Hn Hne. cbn [snd] in Hn.
+  do 5 (destruct i as [|i]; [simpl in Hn; try discriminate; inversion Hn; subst; congruence|]).
+  destruct i; discriminate.
+Qed.
+
+(* The code AS IT IS violates the clause "elements accepted before cancellation can still be read, after which
+   the output ends": there is a reachable state — Put(1) accepted and in the ring, context cancelled — from
+   which, on every continuation (any schedule, further Puts and explicit Close() calls included), the output
+   channel is never closed ... *)
+Theorem C15_urpump_asis_refuted : forall (cap : nat),
+  exists st : Sched.state (UrPump false),
+    Sched.reach (ur_init false cap) st /\ ur_ring (fst st) <> [] /\ ur_cancelled (fst st) = true /\
+    forall st', Sched.reach st st' -> ur_chclosed (fst st') = false.
+Proof. exact ur_asis_refuted. Qed.
+Print Assumptions C15_urpump_asis_refuted.
+
+(* ... and the accepted element is never received. *)
+Theorem C15_urpump_asis_never_delivered_refuted : forall (cap : nat),
+  exists st : Sched.state (UrPump false),
+    Sched.reach (ur_init false cap) st /\ ur_accepted (fst st) = [1%nat] /\ ur_ring (fst st) <> [] /\
+    ur_cancelled (fst st) = true /\
+    forall st', Sched.reach st st' -> ur_chclosed (fst st') = false /\ ur_received (fst st') = [].
+Proof. exact ur_asis_stuck. Qed.
+Print Assumptions C15_urpump_asis_never_delivered_refuted.
+
+(* the witness is the run  Put(1) ; cancel  with the pump not yet scheduled *)
+Example C15_urpump_asis_example :
+  exists st es, Sched.run (ur_init false 8) ur_asis_sched = Some (st, es)
+    /\ ur_accepted (fst st) = [1%nat] /\ ur_ring (fst st) = [1%nat] /\ ur_cancelled (fst st) = true
+    /\ nth_error (snd st) 1 = Some (Some UrPmSelect).
+Proof. eexists. eexists. split; [vm_compute; reflexivity | vm_compute; repeat split]. Qed.
